@@ -14,7 +14,8 @@ RULE = ("seeded topologies: bond/angle/constraint/dihedral type tables over 5 at
         "Topology.preprocess() every interaction of every molecule *instance* is compared with an independent resolver "
         "(exact or reversed key; for dihedrals the least-wildcarded entry matching in either direction; all terms), "
         "and the nonbond table is checked for override / self-term / conversion laws. non-trivial = topology with >= 1 "
-        "parameter-less interaction resolved; distinct = hash(topology text)")
+        "parameter-less interaction resolved; distinct = hash(topology text)"
+        ' Later: macros that contain the function type, macros defined twice (last one in force), macros in [ pairs ].')
 ASSUMPTIONS = ["ties between equally specific entries are accepted in either direction",
                "the combination rule used for generated pairs is not checked (not in the statement)",
                "a parameter-less interaction without any matching entry must make preprocess() raise OSError"]
